@@ -260,24 +260,37 @@ def run(prop, tier, seed, rep):
     # 1. obligations from the current source
     vcs = verify_functions(prop, rep)
     rep.vcs = vcs
+    phase = lambda what: log("[%s %6.1fs] %s" % (prop, time.time() - rep.t0, what)) if os.environ.get("PYVC_PROGRESS") else None
+    phase("%d obligations generated" % len(vcs))
     # 2. lemma library obligations (none is an axiom)
     lvcs = lemma_vcs()
     rep.lemma_vcs = lvcs
     # 3. vacuity: preconditions satisfiable, canary
     canaries = vacuity_vcs(prop, rep)
-    solve.discharge(vcs + lvcs + canaries, timeout_ms=bud["timeout_ms"])
+    solve.discharge(vcs + lvcs, timeout_ms=bud["timeout_ms"])
+    phase("obligations discharged")
+    # canaries are expected NOT to be provable: a hard (process-level) time limit, one unfolding depth -- an in-process z3
+    # timeout is soft and a satisfiable quantified query can run for minutes
+    solve.discharge(canaries, timeout_ms=min(bud["timeout_ms"], 8000), backends=("z3-new-cli", "cvc5"), want_model=False, depths=(2,))
     for cv in canaries:
         if cv.kind == "canary" and cv.status == "unsat":
             rep.broken.append("canary: `false` is provable in the context of %s (inconsistent assumptions)" % cv.func)
         if cv.kind == "pre_sat" and cv.status == "unsat":
             rep.broken.append("vacuous contract: precondition of %s is unsatisfiable" % cv.func)
+    phase("discharge done (%d obligations, %d lemma obligations, %d canaries)" % (len(vcs), len(lvcs), len(canaries)))
     for lv in lvcs:
         if lv.status != "unsat":
             rep.broken.append("lemma obligation %s not discharged (%s)" % (lv.name, lv.status))
     # 4. lean-checked lemmas
     lean_check(rep)
+    # 4b. frame contracts decided by the ownership pass (whole call trees, no SMT)
+    phase("lean done")
+    own_failed = own_frames(prop, pinfo, rep)
+    phase("ownership pass done")
+    own_failed += prov_contracts(prop, pinfo, rep)
     # 5. CPython cross-check of contracts on sampled inputs (also the bounded stand-in for demoted functions)
     rt_results = crosscheck(prop, mods, rep, seed, bud["samples"])
+    phase("cross-check done")
     # 6. verdicts
     failed = [v for v in vcs if v.status != "unsat"]
     if failed:
@@ -346,11 +359,91 @@ def run(prop, tier, seed, rep):
         else:
             print("VIOLATION property=%s replay=%s no-failing-input-found" % (prop, path))
         code = 1
+    for (func, line, what, tops) in own_failed:
+        is_prov = what.startswith("the returned object")
+        name = ("prov[%s]" if is_prov else "frame[%s:%d]") % ((func.split(":")[1],) if is_prov else (func.split(":")[1], line))
+        path = write_replay(prop, func.split("#")[0], name, [], None, note={
+            "obligation": name, "statement": what, "line": line, "function": func,
+            "contract": ("what %s returns contains only outputs of keyed primitives under secret keys, random bytes and public values" % func)
+                        if is_prov else "no object reachable from an argument of %s is mutated" % ", ".join(tops[:4]),
+            "verifier_output": "provenance pass: " + what if is_prov else
+                               "ownership pass: the mutated object may be borrowed (reachable from an argument)"})
+        rep.violations.append({"function": func, "obligations": [name], "replay": path, "failing_input_found": False})
+        print("VIOLATION property=%s replay=%s no-failing-input-found" % (prop, path))
+        code = 1
     if rep.broken:
         for b in rep.broken:
             log("CHECKER-BROKEN:", b)
         return 3 if code == 0 else code
+    # a function under contract that left the verified subset and has no run-time stand-in is undecided, not held
+    for d in rep.demoted:
+        c = registry.CONTRACTS.get(d["function"])
+        if c is not None and (c.no_runtime or c.body is not None):
+            print("UNDECIDED property=%s function=%s: %s (no obligation could be generated and no run-time stand-in exists)" % (
+                prop, d["function"], d["reason"][:200]))
+            if code == 0:
+                code = 2
     return code
+
+
+def own_frames(prop, pinfo, rep):
+    """frame contracts `mutates nothing reachable from its arguments` for the listed entry points"""
+    keys = pinfo.get("own_frames") or []
+    rep.own = {"entry_points": 0, "obligations": 0, "discharged": 0, "functions_analysed": 0, "seconds": 0.0, "notes": [], "assumed_pure": []}
+    if not keys:
+        return []
+    from pyvc import own
+    t0 = time.time()
+    failed = {}
+    seen, analysed, notes, assumed = {}, set(), set(), set()
+    for key in keys:
+        try:
+            o, bad = own.check_frame(REPO, key)
+        except KeyError as ex:
+            rep.demoted.append({"function": key, "reason": "definition not found: %s" % ex})
+            continue
+        rep.own["entry_points"] += 1
+        for ob, ok in o.obligations.items():
+            seen[ob] = seen.get(ob, True) and ok
+            if not ok:
+                failed.setdefault(ob, []).append(key)
+        analysed |= o.analysed
+        notes |= o.notes
+        assumed |= o.assumed
+    rep.own.update(obligations=len(seen), discharged=sum(1 for v in seen.values() if v), functions_analysed=len(analysed),
+                   seconds=round(time.time() - t0, 2), notes=sorted(notes)[:40], assumed_pure=sorted(assumed)[:80])
+    if rep.own["entry_points"] and not seen:
+        rep.broken.append("ownership pass generated zero obligations")
+    return [(f, l, w, tops) for (f, l, w), tops in sorted(failed.items())]
+
+
+def prov_contracts(prop, pinfo, rep):
+    """provenance contracts: what a function returns contains no bytes derived from plaintext / key material except through
+    a keyed primitive under a secret key (decided by the labelled variant of the ownership pass)"""
+    items = pinfo.get("prov_contracts") or []
+    if not items:
+        return []
+    from pyvc import own
+    t0 = time.time()
+    out, n_ok = [], 0
+    for key, roles, allow in items:
+        try:
+            o, found, bad = own.check_prov(REPO, key, roles, allow=tuple(("L", a) for a in allow))
+        except KeyError as ex:
+            rep.demoted.append({"function": key, "reason": "definition not found: %s" % ex})
+            continue
+        if bad:
+            node = Repo(REPO).find(key)[0]
+            out.append((key, node.lineno, "the returned object may contain bytes derived from: %s (labels found: %s)" % (
+                ", ".join(sorted(x[1] for x in bad)), ", ".join(sorted(x[1] for x in found))), [key]))
+        else:
+            n_ok += 1
+    rep.own["prov_obligations"] = len(items)
+    rep.own["prov_discharged"] = n_ok
+    rep.own["obligations"] += len(items)
+    rep.own["discharged"] += n_ok
+    rep.own["seconds"] = round(rep.own.get("seconds", 0) + time.time() - t0, 2)
+    return out
 
 
 def vacuity_vcs(prop, rep):
@@ -459,7 +552,7 @@ def known_covers(prop, key, kf, fvcs, witness, mods, rep, bud):
     return True
 
 
-def write_replay(prop, key, name, fvcs, witness):
+def write_replay(prop, key, name, fvcs, witness, note=None):
     d = os.path.join(os.environ.get("PYVC_REPLAY_DIR") or os.path.join(VERIF, "replays"), prop)
     os.makedirs(d, exist_ok=True)
     fn = name.replace("/", "_").replace("[", "_").replace("]", "").replace(":", "_").replace(" ", "")
@@ -479,6 +572,8 @@ def write_replay(prop, key, name, fvcs, witness):
     if witness is None:
         data["note"] = "no failing input found: the obligation is no longer provable from the current source; " \
                        "solver output attached"
+    if note:
+        data["failed_obligations"].append(note)
     json.dump(data, open(path, "w"), indent=1, default=str)
     return os.path.relpath(path, VERIF)
 
@@ -523,8 +618,12 @@ def write_evidence(rep, code):
     for l in rep.lean:
         if l["checked"]:
             by["lean"] = by.get("lean", 0) + 1
-    n_obl = len(allv) + len(rep.lean)
-    n_dis = len(discharged) + sum(1 for l in rep.lean if l["checked"])
+    own = getattr(rep, "own", None) or {}
+    if own.get("obligations"):
+        by["ownership-pass"] = own["obligations"]
+        secs["ownership-pass"] = own.get("seconds", 0)
+    n_obl = len(allv) + len(rep.lean) + own.get("obligations", 0)
+    n_dis = len(discharged) + sum(1 for l in rep.lean if l["checked"]) + own.get("discharged", 0)
     samples = []
     for v in (rep.vcs[:2] + rep.lemma_vcs[:1]):
         samples.append({"obligation": v.name, "function": v.func, "line": v.line, "what": v.detail,
@@ -550,6 +649,7 @@ def write_evidence(rep, code):
             "functions_under_contract": rep.functions,
             "by_backend": by, "solver_seconds": secs,
             "lemma_obligations": len(rep.lemma_vcs), "lean_checked": rep.lean,
+            "ownership_pass": own,
             "vacuity": {"canaries": sum(1 for _ in rep.functions), "broken": rep.broken},
             "crosscheck": rep.crosscheck,
             "bounded": rep.bounded + pinfo.get("bounded", []),
